@@ -186,7 +186,7 @@ def run_mux_family(ctx, prop):
     if prop in ('C04', 'C05'):
         # histories in which the io.Writer fails once, at every Write index: the failing call is C18's, every call after it has to be exact again
         # (C05: a call of which the writer took nothing has consumed no counter value)
-        once = [s for s in harness_gen(ctx, 'muxfault', 6 if quick else 60, ctx.seed, 4) if s['fault']['mode'] in ('once', 'oncefull')]
+        once = [s for s in harness_gen(ctx, 'muxfault', 6 if quick else 60, ctx.seed, 4) if s['fault']['mode'] in ('once', 'oncefull', 'pattwice', 'cancel')]
         more = [('mux', once, '', monitor)]
     return pipeline(
         ctx, monitor, 'mux', scs + rnd, opt=opt, drift_fn=mux_drift, more=more,
